@@ -400,7 +400,7 @@ run_seq(const Plan& p, sim::Result& res)
             sim::probe("bins_screened_end_point_on_voxel_boundary");
           else
             compare_rounding(row_h, row_r, b, "symmetries");
-          sim::log_bytes(&row_h[0], row_h.size() * sizeof(row_h[0]));
+          sim::log_bytes(row_h.data(), row_h.size() * sizeof(Row::value_type));
           sim::probe("rows_compared");
           if (!row_h.empty())
             sim::probe("nonempty_rows_compared");
